@@ -323,6 +323,26 @@ func runC16(t *T) {
 				break
 			}
 		}
+		if c.Chance(1, 6) {
+			// a handle that lets itself be positioned beyond the end of the listing: what the position means for a
+			// directory is the implementation's affair, but the next page is made of children of this directory, at most
+			// all of them, and the call returns
+			pos := int64([]int{total + 5, 1 << 40, total, 1}[c.Draw(4)])
+			if _, serr := hackpadfs.SeekFile(f, pos, io.SeekStart); serr == nil {
+				size := []int{1, -1, 3}[c.Draw(3)]
+				page, err := hackpadfs.ReadDirFile(f, size)
+				t.Logf("Seek(%d) then ReadDir(%d) -> %d entries, %s", pos, size, len(page), errClass(err))
+				if len(page) > total {
+					t.Fail("paging", fam+":after-seek:too-many", fmt.Sprintf("after Seek(%d) ReadDir(%d) returned %d entries; the directory has %d children", pos, size, len(page), total))
+				}
+				for _, e := range page {
+					if _, ok := want[e.Name()]; !ok {
+						t.Fail("paging", fam+":after-seek:stranger", fmt.Sprintf("after Seek(%d) ReadDir(%d) returned %q, which is not a child of %q", pos, size, e.Name(), dir))
+					}
+				}
+				t.Stat("c16:readdir-after-seek")
+			}
+		}
 		f.Close()
 		pagesSig := fam + ":pages"
 		wantPages := want
